@@ -16,11 +16,11 @@ import (
 // S-expression reader (prefix notation, no escapes in strings)
 
 type refNode struct {
-	op   string     // operator / keyword name for inner nodes
-	kids []*refNode // operands
-	leaf bool
-	atom string // leaf: identifier text, or literal text
-	lit  Value  // leaf: literal value (int64, string, bool, []int64, []string) when isLit
+	op    string     // operator / keyword name for inner nodes
+	kids  []*refNode // operands
+	leaf  bool
+	atom  string // leaf: identifier text, or literal text
+	lit   Value  // leaf: literal value (int64, string, bool, []int64, []string) when isLit
 	isLit bool
 }
 
